@@ -39,7 +39,13 @@ theorem no_body_bytes (r : Resp) (c : ReqCtx) (date : Bytes) (pieces : List Byte
     (hs : c.noBody = true ∨ (100 ≤ r.status ∧ r.status ≤ 199) ∨ r.status = 204 ∨ r.status = 304)
     (h : rawPrint r c date pieces = some out) :
     ∃ hs', out = messageHeader c.version r.status hs' := by
-  sorry
+  have hsup : (c.noBody || Extracted.noBodyStatus r.status) = true := by
+    rw [← noBodyFor_eq, noBodyFor_iff]; exact hs
+  simp only [rawPrint] at h
+  split at h
+  · simp at h
+  · simp only [hsup, if_true, List.append_nil, Option.some.injEq] at h
+    exact ⟨_, h.symm⟩
 
 /-- Main theorem.  For every response with well-formed headers and a correctly declared (or
     undeclared) length, every request context without upgrade, every splitting of the body into
@@ -56,7 +62,56 @@ theorem client_roundtrip (r : Resp) (c : ReqCtx) (date : Bytes) (pieces : List B
       m.status = r.status ∧
       m.kind ≠ .untilClose ∧
       m.body = (if Client.noBodyFor c.noBody r.status then [] else pieces.flatten) := by
-  sorry
+  obtain ⟨hok, hcl, hte, hlen⟩ := wfResp_elim r _ hwf
+  simp only [rawPrint, hup] at h
+  split at h
+  · simp at h
+  · rename_i te len hfr
+    simp only [Option.some.injEq] at h
+    subst h
+    have hA_ok := insertAuto_lineOk r.headers date hdate hok
+    have hA_cl := insertAuto_not r.headers date b!"Content-Length" (by decide) (by decide) hcl
+    have hA_te := insertAuto_not r.headers date b!"Transfer-Encoding" (by decide) (by decide) hte
+    rw [← noBodyFor_eq]
+    rcases framing_cases r c _ te len hup hfr with rfl | ⟨rfl, rfl⟩
+    · -- chunked
+      have hall : ∀ h ∈ insertAuto r.headers date none ++ [teHeader], lineOk h := by
+        intro h hh
+        rcases List.mem_append.1 hh with hh | hh
+        · exact hA_ok h hh
+        · rw [List.mem_singleton.1 hh]; exact lineOk_teHeader
+      rw [framingHeader_chunked, List.append_assoc, decode_messageHeader _ _ _ _ _ hall,
+        decodeBody_chunked _ _ _ _ _ hA_te]
+      cases hnb : Client.noBodyFor c.noBody r.status with
+      | true => exact ⟨_, rfl, rfl, by simp, rfl⟩
+      | false =>
+        have hd := dechunk_enchunk pieces.flatten rest
+          ((Spec.enchunk pieces.flatten ++ rest).length + 1) (by omega)
+        simp only [Bool.false_eq_true, if_false, pieces_irrelevant, hd, Option.map_some]
+        exact ⟨_, rfl, rfl, by simp, rfl⟩
+    · -- identity
+      have hall : ∀ h ∈ insertAuto r.headers date none ++ [clHeader (r.dataLength.getD pieces.flatten.length)],
+          lineOk h := by
+        intro h hh
+        rcases List.mem_append.1 hh with hh | hh
+        · exact hA_ok h hh
+        · rw [List.mem_singleton.1 hh]; exact lineOk_clHeader _
+      rw [framingHeader_identity, List.append_assoc, decode_messageHeader _ _ _ _ _ hall,
+        decodeBody_identity _ _ _ _ _ _ hA_te hA_cl, hlen]
+      generalize pieces.flatten = body
+      cases hnb : Client.noBodyFor c.noBody r.status with
+      | true => exact ⟨_, rfl, rfl, by simp, rfl⟩
+      | false =>
+        have hb : (if 1 ≤ body.length then body else []) = body := by
+          split
+          · rfl
+          · rename_i h1
+            have : body.length = 0 := by omega
+            exact (List.length_eq_zero_iff.1 this).symm
+        have hlt : ¬ (body ++ rest).length < body.length := by
+          simp only [List.length_append]; omega
+        simp only [Bool.false_eq_true, if_false, hb, hlt, List.take_left', List.drop_left']
+        exact ⟨_, rfl, rfl, by simp, rfl⟩
 
 /-- the oracle the check evaluates is exactly the conclusion of `client_roundtrip` with
     `rest = []`. -/
@@ -66,7 +121,9 @@ theorem oracle_of_roundtrip (r : Resp) (c : ReqCtx) (date : Bytes) (pieces : Lis
     (hup : c.upgrade = none)
     (h : rawPrint r c date pieces = some out) :
     Spec.c04Holds c.noBody r.status pieces.flatten out = true := by
-  sorry
+  obtain ⟨m, hdec, hst, hk, hb⟩ := client_roundtrip r c date pieces out [] hwf hdate hup h
+  rw [List.append_nil] at hdec
+  simp [Spec.c04Holds, hdec, hst, hk, hb]
 
 /-- non-vacuity: a concrete chunked response decodes. -/
 example :
